@@ -335,7 +335,7 @@ for _shape in SHAPES:
     slots = range(NSLOTS[_shape]) if tier(False, True) else QUICK_SLOTS[_shape]
     for _sl in slots:
         for _syn in (('dtml', 'ssi') if tier(False, True) or _sl == QUICK_SLOTS[_shape][0] else ('dtml',)):
-            frs = FRQ if tier(False, True) else [FRQ[_cnt % len(FRQ)]]
+            frs = [FRQ[_cnt % len(FRQ)], FRQ[(_cnt + 3) % len(FRQ)]] if tier(False, True) else [FRQ[_cnt % len(FRQ)]]
             for _fi, _fr in enumerate(frs):
                 _other = FRQ[(_cnt + 2 * _fi + 1) % len(FRQ)]
                 _cnt += 1
